@@ -369,7 +369,9 @@ func collectCalls(e Expr, out map[string]bool) {
 		}
 	case EQuant:
 		collectCalls(x.Lo, out)
-		collectCalls(x.Hi, out)
+		if x.Hi != nil {
+			collectCalls(x.Hi, out)
+		}
 		collectCalls(x.Body, out)
 	case EOld:
 		collectCalls(x.X, out)
